@@ -55,7 +55,7 @@ def small_values():
 
 
 def generate(tier, rng):
-    n_random = 1500 if tier == "quick" else 60000
+    n_random = 5000 if tier == "quick" else 60000
     for v, _ in GOLDEN:
         yield {"v": v, "ps": 1, "fs": True}
     i = 0
